@@ -21,6 +21,24 @@ package recordio
 //@   ensures [offset] r1 == nil ==> r0 == old(wrSize(this)) && wrSize(this) > old(wrSize(this))
 //@   modifies wrCount(this), wrSize(this)
 
+// wrSynced(w): number of records known to be on disk (written, flushed and fsynced); wrClosed(w): Close was called.
+//@ ghost wrSynced(w Ref) Int
+//@ ghost wrClosed(w Ref) Bool
+
+//@ iface WriterI.WriteSync
+//@   ensures [step] wrCount(this) == old(wrCount(this)) + 1
+//@   ensures [err] r1 == wrErr(this, old(wrCount(this)))
+//@   ensures [offset] r1 == nil ==> r0 == old(wrSize(this)) && wrSize(this) > old(wrSize(this))
+//@   ensures [synced] r1 == nil ==> wrSynced(this) == wrCount(this)
+//@   modifies wrCount(this), wrSize(this), wrSynced(this)
+
+//@ iface WriterI.Close
+//@   ensures [closed] wrClosed(this)
+//@   modifies wrClosed(this)
+
+//@ iface WriterI.Open
+//@   modifies wrSize(this)
+
 //@ iface WriterI.Seek
 //@   ensures [step] wrSeeks(this) == old(wrSeeks(this)) + 1
 //@   ensures [err] r0 == wrSeekErr(this, old(wrSeeks(this)))
